@@ -440,5 +440,38 @@ def _run(case: dict, env: core.Env, fs: Any, r: random.Random) -> None:
                     env.witness("C03/context/current-functions-inside-a-view", f"conn{i} (context {ctx[i]}) reads {vname} (made by conn{i0} in {ctx[i0]}): {got['rows']}")
                     break
             conns[i0].cursor().execute(f"DROP VIEW {vname}")
+        # a table named bare inside CREATE VIEW denotes the table of the creator's context, whoever reads the view later
+        others = [i for i in full if tuple(ctx[i]) != tuple(ctx[i0])]
+        if others:
+            i1 = others[0]
+            a, b = f"{ctx[i0][0]}.{ctx[i0][1]}", f"{ctx[i1][0]}.{ctx[i1][1]}"
+            c0, c1 = conns[i0].cursor(), conns[i1].cursor()
+            made = []
+            try:
+                for fq, who in ((a, "creator"), (b, "reader")):
+                    o = core.run_stmt(c0, f"CREATE OR REPLACE TABLE {fq}.VBASE (WHO VARCHAR)")
+                    if not o["ok"]:
+                        break
+                    made.append(f"TABLE {fq}.VBASE")
+                    c0.execute(f"INSERT INTO {fq}.VBASE VALUES ('{who}')")
+                else:
+                    o = core.run_stmt(c0, "CREATE OR REPLACE VIEW VOVER AS SELECT WHO FROM VBASE")
+                    if o["ok"]:
+                        made.append(f"VIEW {a}.VOVER")
+                        env.count("cmp_view_body_names")
+                        g0 = core.run_stmt(c0, f"SELECT WHO FROM {a}.VOVER")
+                        g1 = core.run_stmt(c1, f"SELECT WHO FROM {a}.VOVER")
+                        if not g0["ok"] or g0["rows"] != [("creator",)]:
+                            env.witness("C03/resolve/view-body/creator-reads-its-own-view", f"conn{i0} in {a}: {g0.get('rows') or g0.get('exc')}")
+                        elif not g1["ok"]:
+                            env.witness("C03/resolve/view-body/unqualified-name-bound-at-query-time/reader-rejected", f"conn{i1} in {b} reads {a}.VOVER: {g1['exc']['msg'][:200]}")
+                        elif g1["rows"] != [("creator",)]:
+                            env.witness("C03/resolve/view-body/unqualified-name-bound-at-query-time/reads-the-readers-table", f"conn{i1} in {b} reads {a}.VOVER (SELECT WHO FROM VBASE, made in {a}): {g1['rows']}")
+            finally:
+                for m_ in reversed(made):
+                    try:
+                        c0.execute(f"DROP {m_}")
+                    except Exception:  # noqa: BLE001
+                        pass
     if ctx_changed and located:
         env.nontrivial(case)
